@@ -396,6 +396,20 @@ func changeEndorsements(ctx context.Context, cops ChangeOps, endorsement *epb.VM
 	return certPath, nil
 }
 
+// dryRunChangeOps is the ChangeOps of a dry run: nothing exists, nothing is written or committed.
+type dryRunChangeOps struct{}
+
+var errDryRunNotFound = errors.New("dry run: file not found")
+
+func (dryRunChangeOps) WriteOrCreateFiles(context.Context, ...*File) error { return nil }
+func (dryRunChangeOps) ReadFile(context.Context, string) ([]byte, error) {
+	return nil, errDryRunNotFound
+}
+func (dryRunChangeOps) SetBinaryWritable(context.Context, string) error { return nil }
+func (dryRunChangeOps) IsNotFound(err error) bool                       { return errors.Is(err, errDryRunNotFound) }
+func (dryRunChangeOps) Destroy()                                        {}
+func (dryRunChangeOps) TryCommit(context.Context) (any, error)          { return nil, nil }
+
 // Creates commit for extending the endorsement manifest and writing out the serialized endorsement
 // and attempts to submit. Submit may fail, thus "try".
 func tryChange(ctx context.Context, change func(context.Context, ChangeOps) (string, error)) error {
@@ -409,6 +423,9 @@ func tryChange(ctx context.Context, change func(context.Context, ChangeOps) (str
 		if err != nil {
 			return err
 		}
+	} else {
+		// A dry run has no workspace: the change function sees an empty tree and its writes go nowhere.
+		cops = dryRunChangeOps{}
 	}
 	certPath, err := change(ctx, cops)
 	if err != nil {
